@@ -410,25 +410,52 @@ func genC04(r *hlib.Rng, n int) In {
 		if len(live) > 0 {
 			h.num = live[len(live)-1].Num
 		}
-		// sometimes the fork re-includes the logs of a dropped block (same GER again, now in a new block)
-		if len(before) > len(live) && r.Intn(2) == 0 {
-			dropped := before[len(live)]
-			op := h.header()
-			tree := h.st.tree
-			for _, l := range dropped.Logs {
-				switch l.T {
-				case "upd":
-					tree.add(leafHashOf(l.Mer, l.Rer, op.Parent, op.Ts))
-					op.Logs = append(op.Logs, l)
-				case "v2":
-					l.Root, l.Count = hlib.Hex(tree.root().Bytes()), tree.n
-					op.Logs = append(op.Logs, l)
-				case "vb", "vbt":
-					op.Logs = append(op.Logs, l)
+		// usually the fork re-includes what the dropped blocks carried (the same transactions land in new blocks): the same GERs
+		// and the SAME VerifyBatches (rollup id, exit root) events, in the original order or - one time in four - with the
+		// batch verifications in reverse order (A,B on the old fork, B,A on the new one)
+		if len(before) > len(live) && r.Intn(4) != 0 {
+			dropped := before[len(live):]
+			reverse := r.Intn(4) == 0
+			for di, dblk := range dropped {
+				if di > 0 && r.Intn(3) == 0 {
+					break
 				}
+				op := h.header()
+				tree := h.st.tree
+				var vbs []Log
+				for _, l := range dblk.Logs {
+					if l.T == "vb" || l.T == "vbt" {
+						vbs = append(vbs, l)
+					}
+				}
+				vi := 0
+				for _, l := range dblk.Logs {
+					switch l.T {
+					case "upd":
+						if h.st.gers[gerOf(l.Mer, l.Rer)] || inBlock(op, l.Mer, l.Rer) {
+							continue
+						}
+						tree.add(leafHashOf(l.Mer, l.Rer, op.Parent, op.Ts))
+						op.Logs = append(op.Logs, l)
+					case "v2":
+						if tree.n == 0 {
+							continue
+						}
+						l.Root, l.Count = hlib.Hex(tree.root().Bytes()), tree.n
+						op.Logs = append(op.Logs, l)
+					case "vb", "vbt":
+						src := vbs[vi]
+						if reverse {
+							src = vbs[len(vbs)-1-vi]
+						}
+						vi++
+						src.Idx = l.Idx
+						op.Logs = append(op.Logs, src)
+					}
+				}
+				h.st.apply(op)
+				in.Ops = append(in.Ops, op)
 			}
-			h.st.apply(op)
-			in.Ops = append(in.Ops, op)
 		}
 		for i := 0; i < r.Intn(4); i++ {
 			in.Ops = append(in.Ops, h.block(4))
@@ -453,20 +480,33 @@ func genC07(r *hlib.Rng, n int) In {
 		if r.Intn(2) == 0 && len(op.Logs) > 0 {
 			// writes per table in this block, so that the fault actually fires
 			cnt := map[string]int{"block": 1}
+			var late []Fault // first write of every event that follows a writing event
+			wrote := false
 			for _, l := range op.Logs {
 				switch l.T {
 				case "upd":
+					if wrote {
+						late = append(late, Fault{Table: hlib.Pick(r, "leaf", "l1root"), K: cnt["leaf"]})
+					}
 					cnt["leaf"]++
 					cnt["l1root"]++
 					cnt["l1rht"] += 32
+					wrote = true
 				case "vb", "vbt":
 					if !isZero(l.Exit) && pre[l.RID-1] != l.Exit {
 						pre[l.RID-1] = l.Exit
+						if wrote {
+							late = append(late, Fault{Table: hlib.Pick(r, "rroot", "verify"), K: cnt["rroot"]})
+						}
 						cnt["rroot"]++
 						cnt["rrht"] += 32
 						cnt["verify"]++
+						wrote = true
 					}
 				case "init":
+					if wrote {
+						late = append(late, Fault{Table: "init", K: 0})
+					}
 					cnt["init"]++
 				}
 			}
@@ -478,6 +518,12 @@ func genC07(r *hlib.Rng, n int) In {
 				}
 				fo := op
 				fo.Fault = &Fault{Table: t, K: r.Intn(cnt[t])}
+				// two times in three: a fault at the first write of a LATER event, i.e. after at least one info update /
+				// batch verification of this block has been handled completely (its in-memory effects must be undone too)
+				if len(late) > 0 && r.Intn(3) != 0 {
+					f := hlib.Pick(r, late...)
+					fo.Fault = &f
+				}
 				in.Ops = append(in.Ops, fo)
 				if r.Intn(5) == 0 {
 					in.Ops = append(in.Ops, Op{K: "restart"})
